@@ -259,11 +259,11 @@ func engineC05(c *vctx) error {
 	}
 
 	rng := c.rng.fork()
-	exhaustMax := c.n(33, 300)
+	exhaustMax := c.n(33, 128)
 	// corpus: boundary lengths with boundary nonces
-	lens := []int{0, 1, 15, 16, 17, 31, 32, 33, 47, 48, 49, 63, 64, 65, 127, 128, 129, 255, 256, 257, 1000, 4096}
+	lens := []int{0, 1, 15, 16, 17, 31, 32, 33, 47, 48, 49, 63, 64, 65, 127, 128, 129, 256, 4096}
 	if c.thorough() {
-		lens = append(lens, 1024, 4095, 4097, 2, 3, 8, 14, 18, 30, 34, 100, 511, 512, 513, 2047, 2048, 2049, 8191, 8192, 8193, 16384, 32767, 65535, 65536, 65537)
+		lens = append(lens, 255, 257, 1000, 1024, 4095, 4097, 2, 3, 8, 14, 18, 30, 34, 100, 511, 512, 513, 2047, 2048, 2049, 8191, 8192, 8193, 16384, 32767, 65535, 65536, 65537)
 	}
 	for i, l := range lens {
 		var k *crypto.Key
@@ -274,19 +274,19 @@ func engineC05(c *vctx) error {
 		}
 		flips := 6
 		kind := "seal-open-sampled"
-		if l <= exhaustMax && (c.thorough() || l <= 1 || l == 16 || l == 17) {
+		if l <= exhaustMax && (c.thorough() || l == 0 || l == 17) {
 			flips, kind = -1, "seal-open-exhaustive"
 		}
 		group(kind, k, c05Nonce(rng, i), rng.bytes(l), rng, flips, nil)
 	}
 	// random lengths
-	for r := 0; r < c.n(12, 150); r++ {
+	for r := 0; r < c.n(8, 60); r++ {
 		l := rng.intn(c.n(600, 3000))
 		if rng.chance(30) {
 			l = rng.intn(70)
 		}
 		flips, kind := 6, "seal-open-sampled"
-		if l <= exhaustMax && (c.thorough() || r%6 == 0) {
+		if l <= exhaustMax && c.thorough() {
 			flips, kind = -1, "seal-open-exhaustive"
 		}
 		group(kind, c05RandKey(rng), c05Nonce(rng, rng.intn(16)), rng.bytes(l), rng, flips, nil)
@@ -340,7 +340,7 @@ func engineC05(c *vctx) error {
 		c.Case(kind, true, len(pt)+len(dst), fmt.Sprintf("CSeal %s %s %s %s %s %s", c05Key(k), coqHex(nonce), coqHex(dst), coqHex(pt), coqHex(ad), c05SealTerm(out, p)),
 			fmt.Sprintf("nonce=%x len(dst)=%d len(pt)=%d len(ad)=%d -> panic=%v len(out)=%d", nonce, len(dst), len(pt), len(ad), p, len(out)))
 	}
-	for r := 0; r < c.n(30, 400); r++ {
+	for r := 0; r < c.n(20, 400); r++ {
 		k := c05RandKey(rng)
 		nonce := c05Nonce(rng, rng.intn(16))
 		pt := rng.bytes(rng.intn(80))
@@ -379,7 +379,7 @@ func engineC05(c *vctx) error {
 		c.Case(kind, true, len(ct)+len(dst), fmt.Sprintf("COpen %s %s %s %s %s", c05Key(k), coqHex(nonce), coqHex(dst), coqHex(ct), obs),
 			fmt.Sprintf("nonce=%x len(dst)=%d len(ct)=%d -> %.40s", nonce, len(dst), len(ct), obs))
 	}
-	for r := 0; r < c.n(60, 800); r++ {
+	for r := 0; r < c.n(40, 800); r++ {
 		k := c05RandKey(rng)
 		nonce := c05Nonce(rng, rng.intn(16))
 		pt := rng.bytes(rng.intn(70))
@@ -444,7 +444,7 @@ func engineC05(c *vctx) error {
 	rs := []int{-1, 0, 1, 2, 3, 8, 4096, 1 << 23, 1<<23 - 1, 1 << 31}
 	ps := []int{-1, 0, 1, 2, 3, 1 << 18, 1 << 30, 1 << 31}
 	sl := []int{0, 8, 16, 32, 63, 64, 64, 64, 64, 65, 128}
-	for r := 0; r < c.n(150, 1500); r++ {
+	for r := 0; r < c.n(100, 1500); r++ {
 		p := crypto.Params{N: ns[rng.intn(len(ns))], R: rs[rng.intn(len(rs))], P: ps[rng.intn(len(ps))]}
 		if rng.chance(50) { // mostly plausible, cheap parameters
 			p = crypto.Params{N: []int{2, 4, 8, 16, 64, 256, 3, 6, 1, 0, 12}[rng.intn(11)], R: 1 + rng.intn(3), P: 1 + rng.intn(2)}
